@@ -26,7 +26,7 @@ ASSUMPTIONS = [
 ]
 BOUNDS = {'quick': dict(members='1..3', bins='<= (3,2) / (2,2,2); N <= 12', gridpts='<= 3x3x2'),
           'thorough': dict(members='1..4', bins='<= (3,3) / (2,2,2); N <= 30', gridpts='<= 3x3x3')}
-BUDGET = {'quick': 400, 'thorough': 3600}
+BUDGET = {'quick': 1800, 'thorough': 3600}
 
 
 def member(ctx, kind, dim, i, rnd):
